@@ -76,7 +76,7 @@ NoCyc == [s |-> [type |-> "none"], reason |-> "none", initial |-> FALSE, sel |->
           purge |-> FALSE, inv |-> {}, fns |-> {}, req |-> [k |-> "none"], fresh |-> 0, ffins |-> <<>>, rv |-> 0, rem |-> {}, gone |-> FALSE, delays |-> {}, skipped |-> FALSE,
           wake |-> 0, last |-> [h |-> "none"]]
 FreshMem == [known |-> FALSE, nbl |-> FALSE, fho |-> FALSE, rem |-> {}]
-FreshWk == [exp |-> 0, ctime |-> 0, pr |-> FALSE]
+FreshWk == [exp |-> 0, ctime |-> 0, pr |-> FALSE, eos |-> FALSE]      \* eos: the end-of-stream marker sits behind what is queued
 
 Init ==
   /\ conf \in ConfSet
@@ -160,7 +160,8 @@ Kill ==           \* SIGKILL at any point; an in-flight request that the server 
 Stop ==           \* graceful: the watcher is cancelled (no more deliveries); queued events and the running cycle may finish
   /\ up /\ ~stopping /\ "stop" \in Doors /\ bud.stops < MaxStops
   /\ stopping' = TRUE /\ bud' = [bud EXCEPT !.stops = @ + 1]
-  /\ UNCHANGED <<obj, chan, bl, up, mem, wk, pc, cyc, now, gh>>
+  /\ wk' = [wk EXCEPT !.eos = (bl # <<>> \/ pc # "idle")]      \* a worker that is busy gets the marker behind its backlog
+  /\ UNCHANGED <<obj, chan, bl, up, mem, pc, cyc, now, gh>>
   /\ UNCHANGED conf
 
 Down ==
@@ -249,7 +250,8 @@ ProcBegin ==
      IN
      /\ gh' = [gh EXCEPT !.staleview = @ \/ (ct # 0 /\ ct <= now /\ reason2 \in HandlerReasons /\ fns = {} /\ rem0 = {})]
      /\ bl' = Tail(bl)
-     /\ wk' = [exp |-> IF echo THEN 0 ELSE wk.exp, ctime |-> ct, pr |-> IF Tail(bl) = <<>> THEN FALSE ELSE wk.pr]
+     \* (the pressure is relieved only when the backlog is empty: not while the end-of-stream marker of an exiting watcher is in it)
+     /\ wk' = [exp |-> IF echo THEN 0 ELSE wk.exp, ctime |-> ct, pr |-> IF Tail(bl) = <<>> /\ ~wk.eos THEN FALSE ELSE wk.pr, eos |-> wk.eos]
      /\ mem' = IF s.type = "DELETED" THEN FreshMem ELSE m1
      /\ IF required /\ ~achieved0 /\ fns = {}
         THEN \* wait for the echo of the own patch (interruptible by newer events)
@@ -512,7 +514,8 @@ Released == obj.deleting /\ K \notin Range(obj.fins)      \* marked for deletion
 Converged == /\ obj.exists => (obj.match /\ Registered # {} /\ ~Released => obj.lh = obj.ess) /\ \A h \in H : obj.prog[h] = NoRec
              /\ pc = "idle" /\ mem.rem = {}
 \* C03: a terminal state of the bounded model (budgets spent, nothing enabled) is a converged one
-Terminal == up /\ ~ENABLED Urgent /\ chan = <<>> /\ bl = <<>> /\ now = Horizon /\ pc \notin {"sleep", "cwait"}
+\* (a process that was asked to stop is not at rest: its workers are being drained and it goes down)
+Terminal == up /\ ~stopping /\ ~ENABLED Urgent /\ chan = <<>> /\ bl = <<>> /\ now = Horizon /\ pc \notin {"sleep", "cwait"}
 \* Known families of non-convergence (genuine findings, see known_findings.json): each is a narrow ghost predicate
 Family_F20 == gh.reverted         \* an edit that restores the last-handled essence (A -> B -> A): NOOP, records may stay
 Family_F21 == gh.staleview        \* handlers ran on a view older than the own last write after the consistency timeout
